@@ -315,7 +315,7 @@ pub fn judge(c: &Case06) -> Vec<(String, String)> {
                     }
                 }
             }
-            for p in names {
+            for (ordinal, p) in names.into_iter().enumerate() {
                 if p == "UniqueId" || p == "Name" {
                     continue;
                 }
@@ -328,7 +328,10 @@ pub fn judge(c: &Case06) -> Vec<(String, String)> {
                     if a.is_empty() {
                         continue;
                     }
-                    b = b.with_property(p.as_str(), a[*i % a.len()].clone());
+                    // odd rounds give every property another value of its type (two canonical
+                    // properties may share one serialized name: equal values would hide a mix-up)
+                    let k = if i % 2 == 0 { *i / 2 } else { *i / 2 + ordinal };
+                    b = b.with_property(p.as_str(), a[k % a.len()].clone());
                     set.insert(p);
                 }
             }
